@@ -428,6 +428,18 @@ func genC18Args(t *rapid.T) c18Case {
 		}
 		c.Tpl = "[{{ argsIsSet(" + strings.Join(ia, ", ") + ") }}]"
 		c.Twin = "[" + strings.Join(want, ",") + "]"
+		switch rapid.IntRange(0, 2).Draw(t, "issetShape") {
+		case 1: // the first argument arrives through the pipe
+			pk := rapid.IntRange(0, 3).Draw(t, "issetPiped")
+			pv, pw := []string{"ev", "nilvar", "zero", "nilmap"}[pk], []string{"true", "false", "true", "false"}[pk]
+			c.Tpl = "[{{ " + pv + " | argsIsSet: " + strings.Join(ia, ", ") + " }}]"
+			c.Twin = "[" + strings.Join(append([]string{pw}, want...), ",") + "]"
+		case 2: // ... or sits in a slot behind the written ones
+			pk := rapid.IntRange(0, 3).Draw(t, "issetPiped")
+			pv, pw := []string{"ev", "nilvar", "zero", "nilmap"}[pk], []string{"true", "false", "true", "false"}[pk]
+			c.Tpl = "[{{ " + pv + " | argsIsSet(" + strings.Join(append(append([]string{}, ia...), "_"), ", ") + ") }}]"
+			c.Twin = "[" + strings.Join(append(append([]string{}, want...), pw), ",") + "]"
+		}
 	}
 	return c
 }
@@ -437,6 +449,7 @@ func c18ArgVars() jet.VarMap {
 	vars.Set("ev", "EV0")
 	vars.Set("zero", 0)
 	vars["nilvar"] = reflect.ValueOf((*int)(nil))
+	vars.Set("nilmap", map[string]int(nil))
 	show := func(vs []interface{}) string {
 		var parts []string
 		for _, x := range vs {
